@@ -1,6 +1,7 @@
 import glob, os
 def setup(chk):
     chk.add_tu('C01.cpp')
+    chk.add_tu('C01h.cpp')   # heap containers (std::vector / std::basic_string): round trip + reference bytes + GetSize in one harness family, shared by C01/C03/C06
     if chk.tier == 'thorough':
         here = os.path.dirname(os.path.dirname(os.path.abspath(__file__)))
         for f in sorted(glob.glob(os.path.join(here, 'h/gen/C01_t*.inc'))):
